@@ -5,6 +5,11 @@ import json, subprocess
 LOOPNOTE = 'Trusts: A1 token contract (lower-case tag names, exact serialiser/tokeniser round trip), sanitizeAttrs replaced by an arbitrary-result stub, policy tables of at most 2 entries per kind (an upper bound that is general for one step: one step looks up one name per table), z3 5.1 / cvc5 1.0, go/ssa semantics as interpreted.'
 
 CLAIMED = {
+ "C13": dict(
+   text="Reduction decided by symbolic execution + SMT: every path of the real sanitizeAttrs, matchRegex, sanitizeStyles, validURL (unit harnesses of C02/C03/C10/C11/C12 with the policy frozen after construction) and of one iteration of sanitize's token loop (arbitrary state) is checked for stores, map updates, deletes and in-place appends whose target existed before the call (effect tracking in the interpreter's heap; spare slice capacity modelled); a feasible path with such a write is replayed natively by comparing the policy before/after and results against a fresh policy, sequentially and from 8 goroutines. Map-ranging code (matchRegex, style merge, style routing) is executed under every iteration order and must meet an order-independent specification.",
+   note="Trusts: regexp and user callbacks reentrant (A4); append growth model; goroutine interleavings are not explored (no write to shared memory on any path implies race freedom under the Go memory model); z3 5.1 / cvc5 1.0; go/ssa semantics as interpreted.",
+   technique="symbolic execution of go/ssa with heap effect tracking + SMT path feasibility", design="5 C13"),
+
  "C10": dict(
    text="Unit-level symbolic execution of the real sanitizeStyles with douceur's parser replaced by an arbitrary declaration list (up to 2/3 declarations with free property and value), a symbolic rule set (one symbolic property key in the element scope - explicit, element-pattern or absent - and one in the global scope; matcher lists mixing opaque handlers, symbolic enumerations and opaque patterns). SMT decides on every path that the emitted style equals the '; '-join, in order, of exactly the declarations whose lower-cased, prefix-stripped property has a matcher accepting the lower-cased, escape-decoded value, and that a parse error or an empty result removes the attribute. A second harness decides the routing in sanitizeAttrs (style rules present => style filter, else generic attribute rules).",
    note="Trusts: A5 (douceur returns an error or an arbitrary declaration list); strings.ToLower and removeUnicode as uninterpreted symbols shared by code and oracle (removeUnicode's browser-exactness is outside the claim, see DESIGN.md); z3 5.1 / cvc5 1.0; go/ssa semantics as interpreted.",
